@@ -17,7 +17,8 @@ RULE = (
     "faces negated; plus library intersection results (polygon sections of polyhedra, polyhedron overlaps) fed "
     "back into the constructors. Oracle (exact hull): polygon.points are exactly the distinct input vertices "
     "(1e-12) in the exact boundary cycle, counter-clockwise about plane.n; -p has the same vertices, negated "
-    "normal, reversed cycle; -(-p) has the original normal and cycle; polyhedron face normals point away from "
+    "normal, reversed cycle; -(-p) has the original normal and cycle (and eq_with_normal agrees: True for -(-p) vs p, "
+    "False for p vs -p); polyhedron face normals point away from "
     "an exact interior point, point_set/segment_set/convex_polygons equal the exact vertex/edge/face sets "
     "(V-E+F=2), center_point strictly inside. non-trivial = permuted, repeated or flipped input; distinct = "
     "distinct (shape, representation)."
